@@ -7,7 +7,7 @@ import props as P
 import manifest_meta as M
 
 checks = []
-for pid in sorted(P.PROPS):
+for pid in sorted(P.META):
     meta = P.META[pid]
     checks.append({
         "property_id": pid,
@@ -22,7 +22,7 @@ for pid in sorted(P.PROPS):
     })
 all_ids = [json.loads(l)["id"] for l in open(os.path.join(ROOT, "properties.jsonl"))]
 na = [{"property_id": i, "reason": P.NOT_CLAIMED.get(i, "not yet built in this revision: model, theorems and correspondence are in progress (see DESIGN.md §9 build order); no check is registered until it runs green on the unchanged tree")}
-      for i in all_ids if i not in P.PROPS]
+      for i in all_ids if i not in P.META]
 manifest = {
     "version": 1,
     "setup_cmd": "./setup.sh",
@@ -35,7 +35,7 @@ manifest = {
     },
     "engines": [{
         "name": "lean4-proof+correspondence", "path": "/verif/check",
-        "serves_properties": sorted(P.PROPS),
+        "serves_properties": sorted(P.META),
         "kind_free_text": "Lean 4 theorems about an executable model (lean/VrpModel, lean/VrpProofs) + differential correspondence "
                           "between the model (native Lean driver) and the real Rust code (harness, in-process) + Lean-defined oracle on the implementation's output",
     }],
@@ -44,4 +44,4 @@ manifest = {
     "not_applicable": na,
 }
 json.dump(manifest, open(os.path.join(ROOT, "MANIFEST.json"), "w"), indent=1)
-print("claimed:", sorted(P.PROPS), "not claimed:", [x["property_id"] for x in na])
+print("claimed:", sorted(P.META), "not claimed:", [x["property_id"] for x in na])
